@@ -55,6 +55,7 @@ def _worker_main(conn, init, func):
         signal.signal(signal.SIGINT, signal.SIG_IGN)
         if init:
             init()
+        hist = []  # indices of the tasks this process has run so far (the history a result may depend on)
         while True:
             msg = conn.recv()
             if msg is None:
@@ -62,6 +63,9 @@ def _worker_main(conn, init, func):
             idx, task = msg
             try:
                 res = func(task)
+                if isinstance(res, dict) and res.get("violations"):
+                    res["_hist"] = list(hist)
+                hist.append(idx)
             except CpuTimeout:
                 res = {"status": "timeout"}
             except BaseException as e:  # harness error, reported as such
